@@ -229,6 +229,12 @@ func probeForKind(kind string) interface{} {
 	switch kind {
 	case "iri":
 		return "https://p.example/v"
+	case "iri:urn": // absolute IRIs without an authority
+		return "urn:uuid:0a3c1f6e-7b1d-4e57-9a43-0c2f5c1f7d10"
+	case "iri:acct":
+		return "acct:bob@b.example"
+	case "iri:mailto":
+		return "mailto:bob@b.example"
 	case "xsd:string":
 		return "hello world"
 	case "xsd:anyURI":
@@ -259,7 +265,7 @@ func probeForKind(kind string) interface{} {
 	return nil
 }
 
-var litKinds = []string{"iri", "xsd:string", "xsd:anyURI", "xsd:dateTime", "xsd:duration", "xsd:float", "xsd:nonNegativeInteger", "xsd:boolean", "rdf:langString", "rfc:bcp47", "rfc:rfc2045", "rfc:rfc5988", "num:-1", "obj:untyped"}
+var litKinds = []string{"iri", "iri:urn", "iri:acct", "iri:mailto", "xsd:string", "xsd:anyURI", "xsd:dateTime", "xsd:duration", "xsd:float", "xsd:nonNegativeInteger", "xsd:boolean", "rdf:langString", "rfc:bcp47", "rfc:rfc2045", "rfc:rfc5988", "num:-1", "obj:untyped"}
 
 func genC12(r *rng, thorough bool, args []string, yield func(in J)) {
 	// (type, property) exhaustively, plain key with an IRI and with a 2-element IRI list, Map key with a language map
